@@ -1,2 +1,174 @@
-From Coq Require Import List.
-Theorem C13_placeholder : True. Proof. exact I. Qed.
+(* Property C13 — malformed input is rejected, never crashes, never hangs, never alters earlier
+   well-formed entries. Statements only; proofs in Proofs/AmmoSafetyProofs.v,
+   Proofs/AmmoPrefixProofs.v, Proofs/AmmoRobustProofs.v. Every theorem about a decoder
+   quantifies over ALL byte strings (no well-formedness hypothesis) and over the third-party
+   parser oracles. *)
+From Coq Require Import List NArith ZArith Bool.
+From PV Require Import Lib.AmmoBytes Lib.AmmoDecimal Lib.AmmoLines Model.AmmoCommon Model.AmmoUri
+  Model.AmmoUripost Model.AmmoRaw Model.AmmoJson Model.AmmoRobust
+  Proofs.AmmoSafetyProofs Proofs.AmmoPrefixProofs Proofs.AmmoRobustProofs.
+Import ListNotations.
+
+(* [bad r] = the Scan ended in a panic or ran out of fuel. The fuel of every loop is linear
+   in the input: the structural pass over the scanned lines (uri), length+1 ReadString chunks
+   (uripost, raw) and at most one wrap-around per Scan. *)
+
+Theorem C13_no_panic_terminates_uri :
+  forall url_parse maxtok c k (file : bytes),
+    Forall (fun r => bad r = false) (uri_decode url_parse maxtok c k file).
+Proof. exact uri_decode_safe. Qed.
+Print Assumptions C13_no_panic_terminates_uri.
+
+(* uripost: for every reachable or unreachable decoder state; with it, C13_alloc_bounded:
+   every allocation sized by the input is at most max(1 MiB, bytes of input left) *)
+Theorem C13_no_panic_terminates_alloc_uripost :
+  forall url_parse k c (s : pstate),
+    Forall (fun ra => bad (fst ra) = false /\ alloc_ok (snd ra)) (up_run url_parse k c s).
+Proof. exact up_run_safe. Qed.
+Print Assumptions C13_no_panic_terminates_alloc_uripost.
+
+Theorem C13_no_panic_terminates_alloc_raw :
+  forall k c (file : bytes),
+    Forall (fun ra => bad (fst ra) = false /\ alloc_ok (snd ra)) (raw_run k c (raw_init file)).
+Proof. exact raw_decode_safe. Qed.
+Print Assumptions C13_no_panic_terminates_alloc_raw.
+
+Theorem C13_no_panic_terminates_json :
+  forall url_parse c k (ents : list entity) (e : jend) (es : list entry) a p,
+    Forall (fun r => bad r = false) (json_stream_decode url_parse c k ents e) /\
+    Forall (fun r => bad r = false) (array_run k c es a p).
+Proof. intros. split; [apply json_stream_safe|apply array_run_safe]. Qed.
+Print Assumptions C13_no_panic_terminates_json.
+
+(* the body reader itself: never a panic, the allocation bounded, for every size and input *)
+Theorem C13_alloc_bounded :
+  forall (size : Z) (rest : bytes),
+    alloc_read size rest <> APanic /\
+    match alloc_read size rest with
+    | AOk _ _ a | AShort a => (a <= N.max max_prealloc (nlen rest))%N
+    | _ => True
+    end.
+Proof. intros. split; [apply alloc_read_no_panic|apply alloc_read_bound]. Qed.
+Print Assumptions C13_alloc_bounded.
+
+(* a well-formed file (final newline) followed by ANY tail: the first deliveries are exactly
+   the entries of the well-formed part *)
+Theorem C13_prefix_preserved_uri :
+  forall url_parse maxtok (items : list (uitem * lay)) (tail : bytes) (k : nat),
+    forallb (wf_uitem url_parse maxtok) items = true ->
+    (k <= length (uri_entries (map fst items) []))%nat ->
+    uri_decode url_parse maxtok cfg0 k (render_uri items true ++ tail) =
+      map SDeliver (firstn k (uri_entries (map fst items) [])).
+Proof. exact uri_prefix_preserved. Qed.
+Print Assumptions C13_prefix_preserved_uri.
+
+Theorem C13_prefix_preserved_uripost :
+  forall url_parse (items : list (pitem * lay)) (tail : bytes) (k : nat),
+    forallb (wf_pitem url_parse) items = true ->
+    (k <= length (uripost_entries (map fst items) []))%nat ->
+    uripost_decode url_parse cfg0 k (render_uripost items true ++ tail) =
+      map SDeliver (firstn k (uripost_entries (map fst items) [])).
+Proof. exact uripost_prefix_preserved. Qed.
+Print Assumptions C13_prefix_preserved_uripost.
+
+Theorem C13_prefix_preserved_raw :
+  forall (items : list (ritem * lay)) (tail : bytes) (k : nat),
+    forallb wf_ritem items = true ->
+    (k <= length (raw_entries (map fst items)))%nat ->
+    raw_decode cfg0 k (render_raw items true ++ tail) =
+      map SDeliver (firstn k (raw_entries (map fst items))).
+Proof. exact raw_prefix_preserved. Qed.
+Print Assumptions C13_prefix_preserved_raw.
+
+(* scenario request lists: ParseShootName and convertScenarioToAmmo never panic (a leading
+   sleep() is an error); every allocation is a count written in the input *)
+Theorem C13_no_panic_scenario_requests :
+  forall known (reqs : list bytes) acc allocs,
+    (forall s, parse_shoot_name s <> VPanic) /\ convert known reqs acc allocs <> VPanic.
+Proof. intros. split; [apply parse_shoot_name_no_panic|apply convert_no_panic]. Qed.
+Print Assumptions C13_no_panic_scenario_requests.
+
+Theorem C13_scenario_allocs_are_input_counts :
+  forall known reqs acc allocs steps allocs',
+    convert known reqs acc allocs = VOk (steps, allocs') ->
+    exists extra, allocs' = allocs ++ extra /\
+      Forall (fun n => exists sh name sl, In sh reqs /\ parse_shoot_name sh = VOk (name, n, sl) /\ (0 < n)%Z) extra.
+Proof. exact convert_allocs. Qed.
+Print Assumptions C13_scenario_allocs_are_input_counts.
+
+(* the count is not bounded by anything but the text: the full "allocation bounded" statement
+   is refuted for this component (known finding: name(999999999999)) *)
+Theorem C13_scenario_alloc_bounded_refuted :
+  exists reqs steps allocs,
+    convert (fun _ => true) reqs [] [] = VOk (steps, allocs) /\ In 999999999999%Z allocs /\
+    (length (concat reqs) <= 16)%nat.
+Proof.
+  exists [[97; 40; 57; 57; 57; 57; 57; 57; 57; 57; 57; 57; 57; 57; 41]%N]. eexists. eexists.
+  split; [vm_compute; reflexivity|]. split; [left; reflexivity|vm_compute; repeat constructor].
+Qed.
+Print Assumptions C13_scenario_alloc_bounded_refuted.
+
+(* scenario weights: a makeslice failure can only come from an absurd total (negative weights
+   are rejected at decode time, the gcd is positive, the copies are non-negative) *)
+Theorem C13_weights_panic_only_if_huge :
+  forall ws, spread_counts ws = VPanic ->
+    exists g cs, (0 < g)%Z /\ Forall (fun c => (0 <= c)%Z) cs /\ (max_alloc < 8 * fold_left Z.add cs 0)%Z.
+Proof. exact spread_counts_panic. Qed.
+Print Assumptions C13_weights_panic_only_if_huge.
+
+(* index arithmetic of mp.GetMapValue: for every index text, every list length, every
+   iterator value: no panic, and a returned index is inside the list *)
+Theorem C13_no_panic_index :
+  forall idx len nxt rnd,
+    (0 <= len)%Z -> (0 <= nxt)%Z -> ((0 < len)%Z -> (0 <= rnd < len)%Z) ->
+    idx_ok len (extract_index idx len nxt rnd).
+Proof. exact extract_index_safe. Qed.
+Print Assumptions C13_no_panic_index.
+
+Theorem C13_no_panic_property :
+  forall file_lines inp, property_resolve file_lines inp <> VPanic.
+Proof. exact property_resolve_no_panic. Qed.
+Print Assumptions C13_no_panic_property.
+
+Theorem C13_no_panic_rand_string :
+  forall n, (4 * n <= max_alloc)%Z -> rand_string_alloc n <> VPanic.
+Proof. exact rand_string_alloc_safe. Qed.
+Print Assumptions C13_no_panic_rand_string.
+
+(* MultiPassReader: a Read that returns (0, nil) is always followed by a Read that returns data
+   or io.EOF: consumers cannot spin *)
+Theorem C13_multipass_progress :
+  forall len limit m s, (0 < m)%Z ->
+    let '(n1, e1, s1) := mp_read len limit m s in
+    n1 = 0%Z -> e1 = false ->
+    let '(n2, e2, _) := mp_read len limit m s1 in (0 < n2)%Z \/ e2 = true.
+Proof. exact mp_read_progress. Qed.
+Print Assumptions C13_multipass_progress.
+
+(* grpc/json: the pass loop never repeats without delivering *)
+Theorem C13_grpcjson_no_spin :
+  forall unmarshal continue_on_error maxtok k (file : bytes),
+    ~ In GSpin (grpc_decode unmarshal continue_on_error maxtok k file).
+Proof.
+  intros um ce maxtok k file. unfold grpc_decode. destruct (scan_lines maxtok file) as [ls e].
+  apply grpc_run_no_spin.
+Qed.
+Print Assumptions C13_grpcjson_no_spin.
+
+(* non-vacuity / regression witnesses of the repaired defects, evaluated in the model *)
+Definition ex_url13 (u : bytes) : option (bytes * bytes) := Some (u, []).
+Example C13_examples :
+  (* "-5 tag\n..." : rejected, not a panic *)
+  raw_decode cfg0 2 [45; 53; 32; 116; 10; 71; 10]%N = [SErr EBadSize] /\
+  (* "99999999999 /a t\nabc\n": short read, and the allocation stays small *)
+  map snd (up_run ex_url13 1 cfg0 (up_init [57;57;57;57;57;57;57;57;57;57;57;32;47;97;32;116;10;97;98;99;10]%N))
+    = [Some (1048576, 4)%N] /\
+  (* sleep(10) first: an error *)
+  convert (fun _ => true) [[115;108;101;101;112;40;49;48;41]%N; [97]%N] [] [] = VErr /\
+  (* users[next] on an empty list: an error *)
+  extract_index NEXT 0 0 0 = VErr /\
+  (* ${property:/file} without #key: an error *)
+  property_resolve (fun _ => Some []) [47; 102]%N = VErr /\
+  (* an empty source ends with io.EOF at the first Read *)
+  mp_reads 2 0 0 16 {| mp_pos := 0; mp_passes := 0; mp_read_in_pass := false |} = [(0%Z, true); (0%Z, true)].
+Proof. repeat split; vm_compute; reflexivity. Qed.
